@@ -157,10 +157,23 @@ def _handler_table(mod: Any, t: ast.Try, probes: list[tuple[str, type]], what: s
 # --------------------------------------------------------------------------------------------- pieces
 
 
+def _module(name: str) -> Any:
+    """Import a module of the tree under test (the handler types are evaluated in its namespace)."""
+    import sys
+
+    if str(REPO) not in sys.path:
+        sys.path.insert(0, str(REPO))
+    mod = importlib.import_module(name)
+    src = Path(mod.__file__ or "").resolve()
+    if REPO.resolve() not in src.parents:
+        raise Shape(f"{name} was imported from {src}, not from {REPO}: run with PYTHONPATH=$VERIF_REPO")
+    return mod
+
+
 def _read_tables() -> dict[str, dict[str, int | None]]:
     parse, val = _probes()
-    un = importlib.import_module("vgi_rpc.http.server._app_unary")
-    st = importlib.import_module("vgi_rpc.http.server._app_stream")
+    un = _module("vgi_rpc.http.server._app_unary")
+    st = _module("vgi_rpc.http.server._app_stream")
     tu = _tree(f"{SRV}/_app_unary.py")
     ts = _tree(f"{SRV}/_app_stream.py")
     is_read = lambda c: _callee(c) == "_read_request"  # noqa: E731
@@ -378,7 +391,7 @@ def _coerce_status() -> int | None:
     import builtins
 
     ts = _tree(f"{SRV}/_app_stream.py")
-    st = importlib.import_module("vgi_rpc.http.server._app_stream")
+    st = _module("vgi_rpc.http.server._app_stream")
     fn = _func(ts, "_run_http_exchange_turn")
     t = _innermost_try(fn, lambda c: _callee(c) == "_coerce_input_batch")
     return _handler_table(st, t, [("typeError", builtins.TypeError)], "coerce")["typeError"]
